@@ -1030,7 +1030,7 @@ func TestVerifC44Sequential(t *testing.T) {
 	c.Assume("two thirds of the histories use a copy of the current consensus parameters with MaxTxnBytesPerBlock reduced to 1.3-7 kB so that several pending blocks and the fee escalation are reachable with dozens of transactions; signatures are real but not verified by Remember (caller's precondition)")
 	c44RegisterProtos()
 	scratch := c.Scratch("seq")
-	n := c.N(90, 700)
+	n := c.N(90, 500)
 	workers := 12
 	var wg sync.WaitGroup
 	var nextCase atomic.Int64
@@ -1108,7 +1108,7 @@ func TestVerifC44Concurrent(t *testing.T) {
 	c.Assume("the size bound under concurrent Remember calls is outside the property's quantifier (check-then-insert is not atomic): reported, not alarmed")
 	c44RegisterProtos()
 	scratch := c.Scratch("conc")
-	ncases := c.N(4, 30)
+	ncases := c.N(4, 16)
 	for i := 0; i < ncases && c.Violations() == 0; i++ {
 		cfg := c44MakeConfig(c, 100000+i)
 		cfg.PoolSize = []int{6, 15, 40}[i%3]
@@ -1122,7 +1122,7 @@ func TestVerifC44Concurrent(t *testing.T) {
 		var wg, subWg sync.WaitGroup
 		var mu sync.Mutex // protects the world's generator state (note counter, history) and w.committed
 		stop := make(chan struct{})
-		nsub := c.N(120, 300)
+		nsub := c.N(120, 250)
 		var overshootSeen atomic.Int64
 		c.Guard("pool-concurrent", map[string]any{"case": i}, func() {
 			for g := 0; g < 5; g++ {
